@@ -1051,7 +1051,8 @@ func GenProg(t *rapid.T, pf Profile) *Prog {
 			for mi := range p.Ifaces[ii].Methods {
 				m := &p.Ifaces[ii].Methods[mi]
 				eff := EffectiveOpts(p.Ifaces[ii].Opts, m.Opts)
-				if eff.Style == "return" && m.Recv == "" && !m.Reverse && len(m.Extras) == 0 {
+				// (types that only the setup file's dot import makes visible cannot be written in home/types.go)
+				if eff.Style == "return" && m.Recv == "" && !m.Reverse && len(m.Extras) == 0 && !strings.HasPrefix(m.SrcType, "Dot") && !strings.HasPrefix(m.DstType, "Dot") {
 					callees = append(callees, m)
 				}
 				si, ok1 := structIdx[m.SrcType]
